@@ -17,6 +17,11 @@ def classify(op, R):
     if p[0] == "iccw":
         n = int(p[1])
         return "iccw:%s" % ("multiple" if n % K == 0 else "near" if min(n % K, K - n % K) < 3 else "other")
+    if p[0] == "hdrw":
+        return "hdrw:cs%s:l0_%s:l14_%s:%s" % (p[1], "none" if p[10] == "-1" else "0" if p[10] == "0" else "lt14" if int(p[10]) < 14 else "ge14",
+                                              "none" if p[11] == "-1" else "0" if p[11] == "0" else "lt12" if int(p[11]) < 12 else "ge12", R.split(" ")[0])
+    if p[0] == "hdrio":
+        return "hdrio:" + R
     if p[0] == "iccr":
         return "iccr:" + R.split(" ")[0]
     if p[0] == "hdr":
@@ -99,6 +104,19 @@ def gen_ops(rng, tier):
     for cs in (0, 1, 2, 3, 4):
         for l in lims:
             ops.append("jfifsave %d %d %d %d %d %d" % (cs, rng.choice([0, 1, 2]), rng.choice([2, 72, 300, 65535]), rng.choice([3, 96, 600, 65535]), l if cs <= 1 else rng.choice(lims), rng.choice(lims) if cs <= 1 else l))
+    # header fields on the wire: the segments the compressor writes for a tuple of fields and what jpeg_read_header makes of them, under
+    # APP0 / APP14 save limits; stage 2 (hdrio) checks both against the Lean marker writer / reader (Model.HeaderIO, round trips proved)
+    for i in range(900 if big else 160):
+        cs = rng.choice([0, 1, 1, 2, 3, 4])
+        nc = 1 if cs == 0 else 4 if cs in (2, 3) else 3
+        f = []
+        for c in range(nc):
+            f += [rng.choice([1, 1, 2, 2, 3, 4]), rng.choice([1, 1, 2, 2, 3, 4])] if rng.random() < .5 else [1, 1]
+        lims = [-1, -1, 0, 1, 5, 11, 12, 13, 14, 15, 100, 65535]
+        ops.append("hdrw %d %d %d %d %d %d %d %d %d %d %d %s" % (cs, rng.choice([0, 1, 2, 3, 255]), rng.choice([0, 1, 72, 300, 255, 256, 65535, rng.randrange(65536)]),
+                                                                 rng.choice([0, 1, 96, 600, 257, 65535, rng.randrange(65536)]), rng.choice([1, 1, 1, 2]), rng.choice([0, 1, 2, 255]),
+                                                                 rng.choice([1, 8, 17, 255, 256, 257, 1000, 65535]) if rng.random() < .3 else rng.randint(1, 64), rng.randint(1, 40),
+                                                                 rng.choice([0, 0, 1, 255, 256, 65535, rng.randrange(65536)]), rng.choice(lims), rng.choice(lims), " ".join(map(str, f))))
     # sampling factors -> subsampling level
     std = {0: (1, 1), 1: (2, 1), 2: (2, 2), 4: (1, 2), 5: (4, 1), 6: (1, 4)}
     for s, (h, v) in std.items():
@@ -143,6 +161,21 @@ def gen_ops(rng, tier):
         ops.append("hdr %d %d %d %d %d %d %d %d %d %d %d %d %d %d %d %d" % (
             rng.choice([1, 7, 8, 17, 33]), rng.choice([1, 8, 9, 20]), prec, pf, cs, ss, prog, arith, int(ll), psv, pt, xd, yd, units, rstb, rstr))
     return ops
+
+
+def stage2(ops, model_lines, res_by_v):
+    """what the real compressor wrote and the real decompressor read (hdrw) -> the Lean marker writer / reader (hdrio)"""
+    out = []
+    seen = set()
+    for v in res_by_v:
+        for i, op in enumerate(ops):
+            if op.startswith("hdrw "):
+                R = res_by_v[v][i][0]
+                if R.startswith("skip W "):
+                    o = "hdrio " + R[5:]
+                    if o not in seen:
+                        seen.add(o); out.append(o)
+    return out, []
 
 
 def search(ctx, failing_ops):
